@@ -3,6 +3,11 @@ import PolyVerif.Spec.ValueTables
 /-
 Driver of C18.  Abstract case:
 
+  reuse <id:n:seqA> <seqB> <src2> <cuts> <protein>
+     ONE Table value (detached copy of default table n) is re-weighted IN PLACE from seqA, combined with src2's table,
+     re-weighted in place from seqB (same backing arrays) and combined again; the reply is two `pair` replies
+     separated by "|", each judged as the pair (id:n:seqA, src2) resp. (id:n:seqB, src2): a result may depend on
+     the arguments' current VALUES only, not on what the same Table value held in an earlier call.
   pair <src1> <src2> <cuts> <protein>
      src   = id:<n>:<coding sequence>   default table n, detached (deep copy) and re-weighted
            | raw:<table text>           a literal table
@@ -20,6 +25,7 @@ open PolyVerif.Spec.ValueTables (isSumOf isCompromiseOf isCompromiseOfP prepPair
 def render (f : List String) : List String :=
   match f with
   | "pair" :: rest => "c18pair" :: rest
+  | "reuse" :: rest => "c18reuse" :: rest
   | _ => f
 
 /-- exact value of a float64 bit pattern (`none` for NaN / ±Inf) -/
@@ -103,9 +109,7 @@ def triples : List String → List (String × String × String)
   | a :: b :: c :: rest => (a, b, c) :: triples rest
   | _ => []
 
-def judge (f out : List String) : Verdict :=
-  match f with
-  | ["pair", s1, s2, cuts, protein] =>
+def judgePair (s1 s2 cuts protein : String) (out : List String) : Verdict :=
     match out with
     | "ok" :: o1 :: o2 :: a12 :: a21 :: rest =>
       let t1 := parseTable o1
@@ -157,6 +161,32 @@ def judge (f out : List String) : Verdict :=
           " ".intercalate ((cvs.filter fun v => !(v.corr && v.pass)).map (·.detail)) }
     | st :: _ => { corr := false, judge := some false, cls := "pair/" ++ st, detail := "implementation did not answer" }
     | [] => { corr := false, judge := some false, cls := "pair/missing", detail := "no reply" }
+
+def judge (f out : List String) : Verdict :=
+  match f with
+  | ["pair", s1, s2, cuts, protein] => judgePair s1 s2 cuts protein out
+  | ["reuse", s1, seqB, s2, cuts, protein] =>
+    match out with
+    | "ok" :: vals =>
+      let a := vals.takeWhile (· != "|")
+      let b := (vals.dropWhile (· != "|")).drop 1
+      let idPart := match s1.splitOn ":" with
+        | "id" :: n :: _ => "id:" ++ n ++ ":"
+        | _ => "bad:"
+      let va := judgePair s1 s2 cuts protein ("ok" :: a)
+      let vb := judgePair (idPart ++ seqB) s2 cuts protein ("ok" :: b)
+      let both := fun (x y : Option Bool) => match x, y with
+        | some p, some q => some (p && q)
+        | some p, none => some p
+        | none, some q => some q
+        | none, none => none
+      { corr := va.corr && vb.corr, judge := both va.judge vb.judge,
+        cls := (if va.cls.startsWith "triv:" && vb.cls.startsWith "triv:" then "triv:" else "") ++ "reuse/" ++
+               (if vb.cls.startsWith "triv:" then (vb.cls.drop 5).toString else vb.cls),
+        detail := (if va.corr && va.judge != some false then "" else "first use: " ++ va.detail ++ " ") ++
+                  (if vb.corr && vb.judge != some false then "" else "after the in-place re-weighting: " ++ vb.detail) }
+    | st :: _ => { corr := false, judge := some false, cls := "reuse/" ++ st, detail := "implementation did not answer" }
+    | [] => { corr := false, judge := some false, cls := "reuse/missing", detail := "no reply" }
   | _ => { corr := false, judge := none, cls := "bad-case", detail := "bad case" }
 
 def driver : PropDriver := { render, judge }
